@@ -103,9 +103,9 @@ PROPS = {
         "theorems": "JubakoModel.Theorems.C15",
         "harness": "c15",
         "profiles": ["debug"],
-        "rule": "one case = one entry store of 0, 1, 2, ~256, 1500 (quick) / 5000 (thorough) or a random number of entries with a unique key and two reference properties bound (Vow/Bound/Word) to other entries: self, forward chain, backward chain, star and random graphs; sorted and unsorted stores; Bound::get() of every entry after finalize and both reference values of every stored entry compared with the final position of the (referenced) key; Lean decoder + byte-exact Lean re-encoding with the resolved positions; non-trivial = at least two entries",
+        "rule": "one case = one entry store of 0, 1, 2, ~256, 1500 (quick) / 5000 (thorough) or a random number of entries with a unique key and two reference properties bound (Vow/Bound/Word) to other entries: self, forward chain, backward chain, star and random graphs; sorted and unsorted stores; Bound::get() of every entry after finalize and both reference values of every stored entry compared with the final position of the (referenced) key; Lean decoder + byte-exact Lean re-encoding with the resolved positions; plus 8/60 directory packs with two or three entry stores registered one after the other and references across them in both directions (sizes around the 1-byte / 2-byte position boundary; a store sorted on a reference into a store registered later), oracle + Lean decoder; non-trivial = at least two entries",
         "assumptions": [
-            "a sort key that is itself a deferred reference is outside the property (the comparator would change during sorting)",
+            "a sort key that is itself a deferred reference: only the stored VALUES and the handles are checked (final positions); the ORDER of such a store follows the positions the targets had when it was sorted (provisional ones if the target store is registered later) and is outside C15 and C03",
             "the parallel index assignment (rayon par_iter_mut) is modelled as one atomic set_entry_idx step; relaxed atomics are read only after the parallel section has joined",
         ],
     },
